@@ -25,7 +25,8 @@ ID = "C10"
 LEVEL = "model_checking"
 
 UNSORTED_KEY = "rls:unsorted-indices:values-misassigned"
-TOL = 1e-10          # norm-wise, relative to max(1, |data|); unchanged tree shows <= 2e-14 (see run log)
+TOL = 1e-10          # norm-wise, relative to max(1, |data|); the unchanged tree shows <= 2e-15 over the thorough
+                     # space (logged as worst_relative_deviation in every run)
 
 
 # ================================================================================================
@@ -218,8 +219,8 @@ def rls_problems(case):
                 probs.append(("rls:extend-restrict:not-zeroing-constrained-dofs",
                               "extend(restrict(e_%d)) = %s, expected %s" % (j, z, want)))
                 break
-        # restrict_matrix on every unit matrix
-        for r in range(m):
+        # restrict_matrix on every unit matrix (the map does not read b: done for the vector-rhs twin of each case)
+        for r in range(m if case["b"] is not None else 0):
             for c in range(n):
                 E = np.zeros((m, n))
                 E[r, c] = 1.0
@@ -1044,7 +1045,7 @@ def run(ctx):
     out.rule = ("state = enumerated shape (system size, ordered index subset, ordered elim_rows, sparsity kind | space, "
                 "geometry, data kind, face or ordered face list | cylinder, time axis, side); non-trivial = RLS shapes "
                 "with at least one constrained and one free dof / single faces with >= 2 dofs and non-constant data / "
-                "face lists in which some dof is supplied by more than one face / every space-time case")
+                "face lists in which some dof is supplied by more than one face / slices with >= 2 dofs / every space-time case")
     out.assumptions += [
         "restrict/extend/restrict_rhs/restrict_matrix are linear and complete is affine with no value-dependent control "
         "flow: decided on every unit vector / unit matrix (plus one real call on the rounded exact solution)",
